@@ -768,6 +768,19 @@ func (k *vCtl) reqProjectors() {
 				fts.EdgeMulti, fts.EdgeMultiLevel, fts.EdgeMultiVerifyNMonotone, fts.EdgeMultiMakeShortRecords = true, 5, 1, true
 				k.c.Cov("variable_length_requests_on_channels_with_model", 1)
 				k.do(fmt.Sprintf("ConfigureTriggers([%d],edge-multi short=true on a channel with a model)", ch), "err", func() error { return k.sc.ConfigureTriggers(&fts, &okay) })
+			} else if !k.dead && k.gate() == "" && !k.wActive && !k.emtOn && !k.lenUnknown && vChance(r, 0.6) {
+				// straight away: only the record length changes (the model no longer fits and must go), then the channel triggers
+				ns2 := k.ns + 8
+				if err, ret := k.do(fmt.Sprintf("ConfigurePulseLengths(nsamp=%d,npre=%d) [only the length, on a channel with a model]", ns2, k.npre), "ok", func() error {
+					return k.sc.ConfigurePulseLengths(SizeObject{Nsamp: ns2, Npre: k.npre}, &okay)
+				}); ret && err == nil {
+					k.ns = ns2
+					k.hasProj, k.sureProj = map[int]bool{}, map[int]bool{}
+					fts := FullTriggerState{ChannelIndices: []int{ch}}
+					fts.AutoTrigger = true
+					k.do(fmt.Sprintf("ConfigureTriggers([%d],auto) [after the length change]", ch), "ok", func() error { return k.sc.ConfigureTriggers(&fts, &okay) })
+					k.c.Cov("length_only_changes_on_channels_with_model", 1)
+				}
 			}
 		}
 	}
